@@ -45,13 +45,16 @@ def afterOf (n : Json) : Option Nat :=
 /-- the keys a stream carries -/
 def keysOf (s : SV) : List Key := (s.chunks.flatMap (·.map (·.1))).eraseDups
 
+/-- the zero value of the case language's value universe (`flatOps.zero`: the empty map) -/
+def flatZero : FlatMap := []
+
 /-- fan-in that refuses sources sharing a key (as value mode's `mergeMap` does): used to find
     the runs whose stream-mode result depends on the arrival order of the merged chunks -/
 def disjointOps : ValOps SV :=
   { merge := fun ls =>
       let ks := ls.flatMap keysOf
-      if ks.eraseDups.length == ks.length then lazyOps.merge ls else none,
-    zero := lazyOps.zero }
+      if ks.eraseDups.length == ks.length then (lazyOps flatZero).merge ls else none,
+    zero := (lazyOps flatZero).zero }
 
 mutual
 /-- value-mode (`i`) and stream-mode (`t`) function of a node -/
@@ -135,7 +138,7 @@ def resJ (r : Except Err FlatMap) : Json := GraphCase.resultJson r
      "orderDep": some fan-in of the stream-mode run merges streams that share a key (the
      concatenation then depends on the arrival order of their chunks)} -/
 def handle (c : Json) : JE Json := do
-  let (gv, gs) ← parseBoth lazyOps (← J.field c "g")
+  let (gv, gs) ← parseBoth (lazyOps flatZero) (← J.field c "g")
   let (_, gd) ← parseBoth disjointOps (← J.field c "g")
   let x ← J.str c "input"
   let pat := (J.arrD c "inChunks").filterMap (fun v => v.getNat?.toOption)
@@ -144,8 +147,8 @@ def handle (c : Json) : JE Json := do
   let xv : FlatMap := [("in", x)]
   let xs : SV := .ofList (flatChunk pat xv)
   let inv := (run GraphCase.flatOps rv xv).result
-  let str := (run lazyOps rs (.ofList [xv])).result >>= lazyConcat co
-  let tra := (run lazyOps rs xs).result >>= lazyConcat co
+  let str := (run (lazyOps flatZero) rs (.ofList [xv])).result >>= lazyConcat co
+  let tra := (run (lazyOps flatZero) rs xs).result >>= lazyConcat co
   let rd := compile GraphCase.defaultStepSlack gd
   let isMerge : Except Err SV → Bool := fun r => match r with
     | .error e => e.cls == .merge
